@@ -6,14 +6,15 @@ use super::{Ops, Outs};
 use crate::{BloomTokenLog, Duration, SystemTime, TokenLog, UNIX_EPOCH};
 
 /// bloom ops (times and lifetimes are integer microseconds since `UNIX_EPOCH`):
-///   op 0 must be [0, max_bytes, k_num, lifetime]   `BloomTokenLog::new(max_bytes, k_num)` -> [0]
+///   op 0 should be [0, max_bytes, k_num, lifetime] `BloomTokenLog::new(max_bytes, k_num)` -> [0]
+///        (without it the case runs as if op 0 were [0, 0, 0, 0])
 ///   [1, nonce_hi, nonce_lo, issued, hint]            check_and_insert(hi<<64|lo, issued, lifetime)
 ///   [2, nonce_hi, nonce_lo, issued, lifetime, hint]  same with an explicit lifetime (0 allowed)
 ///        -> [accepted (1) / TokenReuseError (0), period_1_start, f1_is_bloom, f1_set_len, f2_is_bloom, f2_set_len]
 /// `hint` is ignored here (it carries the false-positive oracle for the model).
 fn bloom(ops: &Ops) -> Outs {
-    let mut log = BloomTokenLog::new(0, 1);
-    let mut lifetime = Duration::from_micros(1);
+    let mut log = BloomTokenLog::new(0, 0);
+    let mut lifetime = Duration::from_micros(0);
     let mut outs = Vec::new();
     for (i, op) in ops.iter().enumerate() {
         let o = match op[0] {
